@@ -69,7 +69,6 @@ static Plan c18_gen(uint64_t seed, int tier, uint64_t index) {
 
 // aimed plans: "server speaks first" on a first connection whose session the second connection tries to resume, every partition of the client's inbound stream
 static std::vector<Plan> c18_fixed(int tier) {
-    (void) tier;
     std::vector<Plan> v;
     for (int ver = 0; ver < 3; ver++) { for (int tk = 0; tk < 2; tk++) { for (int part = 1; part < PART_N; part++) { for (int es = 0; es < 2; es++) {
         Plan p; p.seed = 180000 + (uint64_t) (((ver * 2 + tk) * PART_N + part) * 2 + es);
@@ -90,6 +89,16 @@ static std::vector<Plan> c18_fixed(int tier) {
         p.ops.push_back(Op("send", 0, mf ? 1024 : 512, 0)); p.ops.push_back(Op("send", 1, 4096, 1)); p.ops.push_back(Op("pump")); p.ops.push_back(Op("send", 0, 16385, 1)); p.ops.push_back(Op("pump")); p.ops.push_back(Op("close", 0));
         v.push_back(p);
     } } } }
+    // a forged plaintext fatal alert glued behind each early handshake record of either direction (one segment), every partition of the receiver's stream
+    for (int ver = 0; ver < 3; ver++) { for (int su = 0; su < 2; su++) { for (int dir = 0; dir < 2; dir++) { for (int rec = 0; rec < (dir ? 5 : 2); rec++) { for (int part = 1; part < PART_N; part += (tier ? 1 : 2)) {
+        Plan p; p.seed = 182000 + (uint64_t) ((((ver * 2 + su) * 2 + dir) * 5 + rec) * PART_N + part);
+        p.cfg["ver"] = ver; p.cfg["conns"] = 1; p.cfg["trail_dir"] = dir; p.cfg["trail_rec"] = rec;
+        if (ver == 2) { p.cfg["suite"] = su ? TLS_CHACHA20_POLY1305_SHA256 : TLS_AES_128_GCM_SHA256; p.cfg["sid_kind"] = KK_EC256; }
+        else { p.cfg["suite"] = su ? TLS_ECDHE_RSA_WITH_AES_128_CBC_SHA : TLS_RSA_WITH_AES_128_CBC_SHA; }
+        p.cfg["part_c"] = part; p.cfg["part_s"] = part; p.cfg["drain_c"] = part % DRAIN_N; p.cfg["drain_s"] = (part + 1) % DRAIN_N;
+        p.ops.push_back(Op("send", 0, 100, 0)); p.ops.push_back(Op("pump"));
+        v.push_back(p);
+    } } } } }
     return v;
 }
 
@@ -184,10 +193,17 @@ static RunResult c18_exec(const Plan &p) {
         TlsWorld w; w.keep_logs = true;
         if (!w.setup(pc)) { res.harness_error = true; res.detail = "setup rc=" + std::to_string(w.setup_rc); sim_global_close(); return res; }
         int flip_dir = (int) p.get("flip_dir", -1), flip_rec = (int) p.get("flip_rec", -1); int64_t flip_bit = p.get("flip_bit");
+        int trail_dir = (int) p.get("trail_dir", -1), trail_rec = (int) p.get("trail_rec", -1);
         for (int ci = 0; ci < conns; ci++) {
             bool last = ci == conns - 1;
             w.filter = [&](Record &r, std::vector<Bytes> &out) {
                 Bytes b = r.raw;
+                if (last && r.dir == trail_dir && r.index == trail_rec) {
+                    // an on-path attacker appends a plaintext fatal alert record right behind this record (same segment): before the ChangeCipherSpec
+                    // of that direction a plaintext alert is what the receiver expects to read
+                    Bytes al = { 21, b.size() > 2 ? b[1] : (unsigned char) 3, b.size() > 2 ? b[2] : (unsigned char) 3, 0, 2, 2, 40 };
+                    b.insert(b.end(), al.begin(), al.end()); res.count("fault.trailing_alert_in_stream");
+                }
                 if (last && r.dir == flip_dir && r.index == flip_rec && b.size() > 5) { size_t bit = (size_t) ((uint64_t) flip_bit % ((b.size() - 5) * 8)); b[5 + bit / 8] ^= (unsigned char) (1u << (bit % 8)); res.count("fault.flip_in_stream"); }
                 out.push_back(b);
             };
@@ -264,6 +280,15 @@ static RunResult c18_exec(const Plan &p) {
                     else if (o.complete_before_delivery != c.complete_before_delivery[role]) { field = "complete_before_delivery"; }
                     // a partial send inside the last flight: the event must wait for the rest of the flight, as it does when the buffer is drained in one call
                     else if (o.complete_pending > 0) { field = "complete_reported_with_flight_bytes_unsent"; }
+                    if (!field.empty() && p.get("trail_rec", -1) >= 0 && ci + 1 == hist.size()) {
+                        // the glued alert: reported when it arrives in a read of its own, never reported when it shares the read with the flight-ending
+                        // record in front of it (the response flight is built in the input buffer, over whatever followed that record)
+                        auto saw = [](const std::vector<int> &al) { for (int a : al) { if (a == 2 * 256 + 40) { return true; } } return false; };
+                        bool receiver = role == (p.get("trail_dir") == DIR_S2C ? 0 : 1);
+                        // the reference run itself shows the defect: the alert was in this endpoint's inbound stream and it never reported it; what the
+                        // replay then does with those bytes (reports the alert, or chokes on the part of it that was not dropped) depends on the partition
+                        if (receiver && !saw(c.alerts[role])) { field = "bytes_behind_flight_ending_record_dropped"; ctx = std::string(role ? "srv" : "cli") + "," + ver_name(pc.version); }
+                    }
                     std::string where;
                     if (field == "output_bytes") {
                         // locate the first differing byte and the record it falls into (record header types/lengths are in the clear)
